@@ -2,6 +2,7 @@
    occupancies, limits, tie patterns, both directions. *)
 From Coq Require Import ZArith List Bool Arith Permutation.
 From HV Require Import Ord ListX Sprout SproutFacts Select SelectFacts FilterFacts.
+From HV Require Import Tree DriverPrim SproutPrim GenEquivStops GenFilters GenEquivFilters.
 Import ListNotations.
 
 (* BestPerDeme: exactly the (first) best of the deme's current population *)
@@ -57,3 +58,15 @@ Example C10_example :
   deme_limit true 2 [3; 9; 5; 9]%Z = [9; 9]%Z /\ deme_limit false 2 [3; 9; 5; 9]%Z = [3; 5]%Z /\
   level_limit true 3 (fun _ => 0) (fun _ => 1) [(0, [3; 9]%Z); (1, [5; 9; 1]%Z)] = [(0, [9]%Z); (1, [9]%Z)].
 Proof. vm_compute. repeat split. Qed.
+
+(* ---------------------------------------------------------------- DemeLimit and LevelLimit TRANSLATED from the current
+   pyhms/sprout/sprout_filters.py (Gen/GenFilters.v) are the models the theorems above are about *)
+Theorem C10_translated_DemeLimit c fuel limit cm s : NoDup (cm_keys cm) ->
+  answers (gen_DemeLimit c fuel limit cm) s (deme_limit_cmap (maximize c) limit cm).
+Proof. exact (DemeLimit_ok c fuel limit cm s). Qed.
+Print Assumptions C10_translated_DemeLimit.
+Theorem C10_translated_LevelLimit c fuel L cm s :
+  NoDup (cm_keys cm) -> (forall pk, In pk cm -> S (lvl_at (demes (ms s)) (fst pk)) < height c) ->
+  answers (gen_LevelLimit c fuel L cm) s (level_limit (maximize c) L (lvl_at (demes (ms s))) (active_at (demes (ms s))) cm).
+Proof. exact (LevelLimit_ok c fuel L cm s). Qed.
+Print Assumptions C10_translated_LevelLimit.
